@@ -288,6 +288,11 @@ const IN_NAMES_P: [&str; 8] = ["D", "D1", "D10", "DA", "D_", "DD", "D1A", "D2"];
 const OUT_NAMES_P: [&str; 8] = ["Q", "V_out", "Q10", "IO_x_out", "Q_", "V1_out", "Q1A", "Q2"];
 const BIDIR_NAMES_P: [&str; 3] = ["IO1", "IO", "IO10"];
 const VIRT_NAMES_P: [&str; 6] = ["V", "V1", "V10", "VV", "V_", "V1A"];
+// third naming scheme: names that differ only in capitalisation (names are case-sensitive)
+const IN_NAMES_C: [&str; 8] = ["D", "d", "Clk", "CLK", "clk", "En", "EN", "en"];
+const OUT_NAMES_C: [&str; 8] = ["Q", "q", "Out", "OUT", "out", "Qq", "QQ", "qq"];
+const BIDIR_NAMES_C: [&str; 3] = ["IO", "io", "Io"];
+const VIRT_NAMES_C: [&str; 6] = ["V", "v", "Vv", "VV", "vv", "vV"];
 const EXOTIC: [&str; 6] = ["A-1", "~RST", "B[0]", "9", "ALU-~OE", "x.y"];
 const VARS: [&str; 8] = ["a", "b", "i", "j", "k", "m", "n", "t"];
 // legal identifiers that look like the row markers (in a row `X` `C` `Z` are markers whatever
@@ -362,11 +367,10 @@ impl<'k> Gen<'k> {
         if self.rng.chance(1, 12) {
             self.var_pool = MARKER_VARS;
         }
-        let prefixy = self.rng.chance(1, 4);
-        let (in_names, out_names, bidir_names, virt_names) = if prefixy {
-            (IN_NAMES_P, OUT_NAMES_P, BIDIR_NAMES_P, VIRT_NAMES_P)
-        } else {
-            (IN_NAMES, OUT_NAMES, BIDIR_NAMES, VIRT_NAMES)
+        let (in_names, out_names, bidir_names, virt_names) = match self.rng.below(8) {
+            0 | 1 => (IN_NAMES_P, OUT_NAMES_P, BIDIR_NAMES_P, VIRT_NAMES_P),
+            2 => (IN_NAMES_C, OUT_NAMES_C, BIDIR_NAMES_C, VIRT_NAMES_C),
+            _ => (IN_NAMES, OUT_NAMES, BIDIR_NAMES, VIRT_NAMES),
         };
         for i in 0..n_in {
             let bits = if self.k.probe_inputs && i == 0 {
@@ -1551,6 +1555,7 @@ pub fn gen_case(rng: Rng, knobs: &Knobs) -> Case {
         hash_seed: rng.next_u64(),
         reparse: vec![],
         run_static: false,
+        static_first: false,
         inspect,
         max_steps: knobs.max_steps,
         continue_after_error: rng.chance(knobs.continue_pct as u64, 100),
